@@ -548,6 +548,11 @@ def knife_edge(model_name, time_items, inflow_at, n_pts, prm_at, tol=1e-9):
         for t in range(c, n):
             for eta, _ in quad_rule(inflow_at, n_pts):
                 t_in = eta * b[c + 1] + (1 - eta) * b[c]
-                if abs((b[t + 1] - t_in) - mean) <= tol * max(1.0, abs(mean)):
-                    return True
+                age = b[t + 1] - t_in
+                if abs(age - mean) <= tol * max(1.0, abs(mean)):
+                    # an exact tie of exactly representable numbers is not a knife edge: S(L) = P(T > L) = 0 is well defined
+                    # and no rounding is involved (bounds, eta and the mean are multiples of 1/8 of moderate size)
+                    exact = all(float(x * 8).is_integer() and abs(x) < 2**40 for x in (b[t + 1], b[c + 1], b[c], eta, mean)) and age == mean
+                    if not exact:
+                        return True
     return False
